@@ -88,7 +88,14 @@ class C02(Check):
                                                             "constant or mentioning the enclosing parameter",
                                              "binder_names": "every admissible assignment from pool ['e','j','t']"},
                          scopecases.called_defaults, runner="run_chain_p3"))
+        out += self._extra_spaces()
         return out
+
+    def _extra_spaces(self):
+        return [Space("boolean-values", {"generator": "scopecases.bool_values: and / or / not used for their value over operands that are not truth "
+                                                       "values, constants (written out, through a called lambda's argument, through a constant "
+                                                       "projection) in every position", "binder_names": "every admissible assignment from pool ['e','j']"},
+                      scopecases.bool_values, runner="run_chain")]
 
     def run_chain_p3(self, src):
         return self.run_chain(src, qspaces.POOL3)
